@@ -81,3 +81,35 @@ Example C01_example :
 Proof.
   cbv zeta. split; [apply alternatingb_sound; vm_compute; reflexivity|vm_compute; auto].
 Qed.
+
+(* ---- The FULL machine (float layer + state machine, Model/AnalogF.v [frun]) that the correspondence runs exercise.
+   [frun c fc ai h = Some (st, outs)]: the machine ran the raw history h (key events, SYN, EV_ABS events with raw values)
+   without hitting the "no deadzone configured" panic; [fc] are the deadzones (ANY floats: NaN, infinities, out of range),
+   [ai] the reported axis ranges (any).  The bridge: the machine's final state, messages and exit signals are those of the
+   state machine on the discrete history [discrete c fc ai h] that the float layer makes of h (an axis event becomes the
+   sample it produces, or nothing when the axis is unmapped / the shaped value did not change).  Nothing below looks inside
+   the float computation, so there is no domain hypothesis. *)
+From HIDI Require Import Model.AnalogF Proofs.MachineBridge.
+
+Theorem C01_machine_bridge : forall c fc ai h st outs,
+  frun c fc ai h = Some (st, outs) ->
+  fst (run c (discrete c fc ai h)) = fst st /\
+  all_midi (snd (run c (discrete c fc ai h))) = all_midi outs /\
+  all_sigs (snd (run c (discrete c fc ai h))) = all_sigs outs.
+Proof. exact frun_discrete. Qed.
+Print Assumptions C01_machine_bridge.
+
+(* Disconnect at any moment of the full machine: [fkeys h] are the key events of the raw history (alternation is a property of
+   the key events alone; axis events are unrestricted) *)
+Theorem C01_machine_disconnect : forall c fc ai h r st outs,
+  alternating (fkeys (h ++ r)) -> frun c fc ai h = Some (st, outs) ->
+  recv [] (all_midi outs ++ snd (cleanup c (fst st))) = [].
+Proof. exact machine_disconnect. Qed.
+Print Assumptions C01_machine_disconnect.
+
+(* Quiescence of the full machine, with the same partiality as C01_quiescent_partial (axis tracker, not physical position) *)
+Theorem C01_machine_quiescent_partial : forall c fc ai h r st outs,
+  alternating (fkeys (h ++ r)) -> frun c fc ai h = Some (st, outs) ->
+  keys_down (fkeys h) = [] -> analogT (fst st) = [] -> recv [] (all_midi outs) = [].
+Proof. exact machine_quiescent. Qed.
+Print Assumptions C01_machine_quiescent_partial.
